@@ -79,5 +79,5 @@ func DeadAppend(xs []string, flag bool) int {
 func SameHost(a, b *url.URL) bool { return a.Hostname() == b.Hostname() }
 
 // Mutates writes through its argument; Reads does not.
-func Mutates(d *doc) { d.Files = nil }
+func Mutates(d *doc)   { d.Files = nil }
 func Reads(d *doc) int { return len(d.Files) }
